@@ -23,7 +23,8 @@ RULE = ('(a) fault points, ENUMERATED per score: a complete score-partwise built
         'xml.etree re-reads it.  (c) configurations: fresh interpreters with default text encoding ASCII '
         '(LC_ALL=C, PYTHONCOERCECLOCALE=0, -X utf8=0), UTF-8 (C.UTF-8), and emulated Latin-1 / cp1252 (launcher wraps '
         'builtins.open / io.open to apply that encoding whenever the caller passes none) import the package, build, '
-        'write, parse and re-serialise documents with non-ASCII text: files must be byte-identical and '
+        'write, parse and re-serialise documents with non-ASCII text, and parse the same documents stored with a BOM, as '
+        'UTF-16, as declared ISO-8859-1 and with CRLF line ends: files must be byte-identical and '
         're-serialisations identical across all configurations.  Non-trivial: (a) the failing node is not the root '
         'and the prior content is non-empty; (b) non-ASCII text or a prior longer than the document; (c) the document contains non-ASCII text.')
 ASSUMPTIONS = ['destination unchanged is asserted for pre-existing files only',
@@ -234,7 +235,26 @@ try:
         sc.write(p)
         b = open(p, 'rb').read()
         back = parse_musicxml(p).to_string()
-        res.append([hashlib.sha256(b).hexdigest(), hashlib.sha256(back.encode('utf-8')).hexdigest(), len(b)])
+        row = [hashlib.sha256(b).hexdigest(), hashlib.sha256(back.encode('utf-8')).hexdigest(), len(b)]
+        # the same document stored in other encodings that the file itself declares (BOM / XML declaration): reading
+        # is governed by the file, never by the process; all must give the tree read from the UTF-8 file
+        text = b.decode('utf-8')
+        body = text.split('?>', 1)[1]
+        variants = {'utf-8-bom': b'\xef\xbb\xbf' + b,
+                    'utf-16': ('<?xml version="1.0" encoding="UTF-16"?>' + body).encode('utf-16'),
+                    'crlf': text.replace('\n', '\r\n').encode('utf-8')}
+        # characters outside Latin-1 become character references, the others stay 8-bit bytes
+        variants['iso-8859-1'] = ('<?xml version="1.0" encoding="ISO-8859-1"?>' + body).encode('iso-8859-1', 'xmlcharrefreplace')
+        for vn in sorted(variants):
+            q = os.path.join(d, 'doc%d_%s.xml' % (i, vn))
+            with open(q, 'wb') as f:
+                f.write(variants[vn])
+            try:
+                vb = parse_musicxml(q).to_string()
+                row.append(vn + ':' + ('same' if vb == back else 'DIFFERENT ' + hashlib.sha256(vb.encode('utf-8')).hexdigest()[:12]))
+            except Exception as ex:
+                row.append(vn + ':' + type(ex).__name__)
+        res.append(row)
     out['results'] = res
 except BaseException as ex:
     import traceback
@@ -281,6 +301,12 @@ def check_configs(specs):
             return F('fails-under-default-encoding', dict(inp, config=name), {'config': name, 'error': r['error'],
                                                                             'where': r.get('where', '')[-300:]},
                      'behaves as under UTF-8')
+        for i, row in enumerate(r['results']):
+            odd = [x for x in row[3:] if not x.endswith(':same')]
+            if odd:
+                return F('declared-encoding-not-honoured', dict(inp, config=name),
+                         {'config': name, 'document': i, 'variants': odd},
+                         'a file in a declared encoding (BOM, UTF-16, ISO-8859-1, CRLF line ends) reads like its UTF-8 twin')
         if r['results'] != ref['results']:
             bad = [i for i, (a, b) in enumerate(zip(r['results'], ref['results'])) if a != b]
             return F('output-depends-on-default-encoding', dict(inp, config=name),
